@@ -185,6 +185,11 @@ pub fn exec(t: &[&str]) -> Option<String> {
     }
 }
 
+/// the position of a variant in `gen::RCT_TYPES`, by an EXHAUSTIVE match: a variant added to `RctType` stops the harness from
+/// building until the literal tables (here, gen.rs, `rctNames` of the model) are revisited
+fn rct_index(t: RctType) -> usize {
+    match t { RctType::Null => 0, RctType::Full => 1, RctType::Simple => 2, RctType::Bulletproof => 3, RctType::Bulletproof2 => 4, RctType::Clsag => 5, RctType::BulletproofPlus => 6 }
+}
 fn valid_key(rng: &mut Rng) -> PublicKey { PublicKey::from_private_key(&PrivateKey::from_scalar(Scalar::from_bytes_mod_order(rng.arr32()))) }
 fn h(s: &str) -> String { hex(s.as_bytes()) }
 
@@ -511,6 +516,10 @@ fn run_more(o: &mut Out, thorough: bool, seed: u64) {
     ];
     for (ty, d) in probes.iter() { let r = o.op(format!("c19_de {} {}", ty, h(d)), false); ok_nt(o, &r); o.stat("de2.probe"); }
 
+    for (i, t) in gen::RCT_TYPES.iter().enumerate() {
+        o.direct(rct_index(*t) == i, "gen::RCT_TYPES lists the variants of RctType in declaration order", format!("{:?}", t), rct_index(*t).to_string(), i.to_string());
+        o.direct(serde_json::to_string(t).ok() == Some(format!("\"{:?}\"", t)), "a unit variant is written as its identifier", format!("{:?}", t), serde_json::to_string(t).unwrap_or_default(), format!("\"{:?}\"", t));
+    }
     // ---- transactions of every RingCT type (v2) and two v1; blocks
     let mut forced: Vec<Transaction> = Vec::new();
     for i in 0..9 {
